@@ -706,6 +706,8 @@ def subscript(I, st, base, idx, txt):
         return frame_column(I, st, base, idx, txt)
     if isinstance(base, VObj) and base.cls == 'Table':
         return table_subscript(I, st, base, idx)
+    if isinstance(base, VObj) and base.cls == 'InfoDict' and isinstance(idx, VStr) and idx.concrete() in base.fields:
+        return base.fields[idx.concrete()]
     if isinstance(base, VObj) and base.cls in ('ColumnsFrame', 'dictlit') and isinstance(idx, VStr) and idx.concrete() in base.fields:
         return base.fields[idx.concrete()]
     return None
@@ -1576,3 +1578,170 @@ def m_seq_max(I, st, s):
 
 _METHODS[(VSeq, 'min')] = m_seq_min
 _METHODS[(VSeq, 'max')] = m_seq_max
+
+
+# ----------------------------------------------------------------------------- numpy.random / generators (C19, C20)
+@stub('numpy.random.choice')
+def s_np_choice(I, st, args, kwargs):
+    """np.random.choice(a, size, replace, p): `size` draws from a (values unconstrained except membership; pairwise
+    distinct positions when replace=False, which needs size <= len(a))."""
+    a = args[0]
+    if isinstance(a, VInt):
+        a = mk_range(z3.IntVal(0), a.t)
+    a = materialize(I, st, a)
+    size = kwargs.get('size', args[1] if len(args) > 1 else None)
+    rep = kwargs.get('replace', args[2] if len(args) > 2 else None)
+    replace = True if rep is None else not z3.is_false(z3.simplify(I.truth(rep, st)))
+    I.oblige(st, 'nonempty[np.random.choice]', a.length > 0)
+    if size is None:
+        j = z3.Int(fresh_name('choice.idx'))
+        I.assume(st, z3.And(j >= 0, j < a.length))
+        return from_term(a.arr[j], a.ek)
+    n = _int(size)
+    I.oblige(st, 'size_nonneg[np.random.choice]', n >= 0)
+    R = z3.Array(fresh_name('choice'), z3.IntSort(), sort_of(a.ek))
+    src = z3.Function(fresh_name('choice.src'), z3.IntSort(), z3.IntSort())
+    i, i2 = z3.Int(fresh_name('i')), z3.Int(fresh_name('i2'))
+    I.assume(st, z3.ForAll([i], z3.Implies(z3.And(i >= 0, i < n), z3.And(src(i) >= 0, src(i) < a.length, R[i] == a.arr[src(i)])),
+                           patterns=[R[i]]))
+    if not replace:
+        I.oblige(st, 'enough_values[np.random.choice(replace=False)]', n <= a.length)
+        I.assume(st, z3.ForAll([i, i2], z3.Implies(z3.And(i >= 0, i < i2, i2 < n), src(i) != src(i2)),
+                               patterns=[z3.MultiPattern(src(i), src(i2))]))
+    return VSeq(a.ek, n, R, flavor='array', dtype=a.dtype)
+
+
+@stub('numpy.random.randint')
+def s_np_randint(I, st, args, kwargs):
+    if len(args) == 1 and 'size' not in kwargs:
+        hi = _int(args[0])
+        I.oblige(st, 'range_nonempty[np.random.randint]', hi > 0)
+        r = z3.Int(fresh_name('randint'))
+        I.assume(st, z3.And(r >= 0, r < hi))
+        return VInt(r)
+    raise EngineError('np.random.randint with size / low-high')
+
+
+@stub('numpy.arange')
+def s_np_arange(I, st, args, kwargs):
+    a = [_int(x) for x in args]
+    if len(a) == 3 and not (z3.is_int_value(z3.simplify(a[2])) and z3.simplify(a[2]).as_long() == 1):
+        raise EngineError('np.arange with step != 1')
+    lo, hi = (z3.IntVal(0), a[0]) if len(a) == 1 else (a[0], a[1])
+    r = mk_range(lo, hi)
+    return VSeq('int', r.length, r.arr, flavor='array', dtype='int64')
+
+
+@stub('norm.pdf')
+def s_norm_pdf(I, st, args, kwargs):
+    """scipy.stats.norm.pdf(x, scale): strictly positive densities, one per cell (values otherwise unconstrained)."""
+    x = args[0]
+    R = z3.Array(fresh_name('pdf'), z3.IntSort(), z3.RealSort())
+    i = z3.Int(fresh_name('i'))
+    I.assume(st, z3.ForAll([i], R[i] > 0, patterns=[R[i]]))
+    r = VSeq('real', x.length, R, flavor='array', dtype='float64')
+    r.positive = True
+    return r
+
+
+def m_arr_sum(I, st, a):
+    s = I.speclib.seq_sum(I, st, a)
+    if getattr(a, 'positive', False):
+        I.assume(st, z3.Implies(a.length > 0, s.t > 0))
+    return s
+
+
+_METHODS[(VSeq, 'sum')] = m_arr_sum
+
+
+@stub('numpy.append')
+def s_np_append(I, st, args, kwargs):
+    a, b = args
+    r = seq_concat(I, st, VSeq(a.ek, a.length, a.arr, flavor='array', dtype=a.dtype), b)
+    return VSeq(r.ek, r.length, r.arr, flavor='array', dtype=a.dtype)
+
+
+_FUNCS['numpy.random.shuffle'] = _FUNCS['random.shuffle']
+TRUSTED_NAMES.add('numpy.random.shuffle')
+
+
+@stub('numpy.random.seed')
+def s_np_seed(I, st, args, kwargs):
+    return VNone()
+
+
+# ----------------------------------------------------------------------------- 2-D helpers and python-level lists (C20)
+@stub('numpy.column_stack')
+def s_column_stack(I, st, args, kwargs):
+    """np.column_stack((A, B)): columns of A followed by the columns of B (B may be a vector = one column)."""
+    parts = args[0].items if isinstance(args[0], VTuple) else None
+    if not parts or len(parts) != 2 or not isinstance(parts[0], VMat):
+        raise EngineError('np.column_stack of this shape')
+    A, B = parts
+    r_, c_ = z3.Int(fresh_name('r')), z3.Int(fresh_name('c'))
+    G = z3.Array(fresh_name('cstack'), z3.IntSort(), z3.ArraySort(z3.IntSort(), sort_of(A.ek)))
+    if isinstance(B, VMat):
+        I.oblige(st, 'shape[np.column_stack]', A.rows == B.rows)
+        bcols, bcell = B.cols, (lambda r, c: B.arr[r][c])
+    elif isinstance(B, VSeq):
+        I.oblige(st, 'shape[np.column_stack]', A.rows == B.length)
+        bcols, bcell = z3.IntVal(1), (lambda r, c: B.arr[r])
+    else:
+        raise EngineError('np.column_stack operand')
+    ek = A.ek if B.ek == A.ek else 'real'
+    aconv = (lambda t: t) if A.ek == ek else (lambda t: z3.ToReal(t))
+    conv = (lambda t: t) if B.ek == ek else (lambda t: z3.ToReal(t))
+    G = z3.Array(fresh_name('cstack'), z3.IntSort(), z3.ArraySort(z3.IntSort(), sort_of(ek)))
+    I.assume(st, z3.ForAll([r_, c_], G[r_][c_] == z3.If(c_ < A.cols, aconv(A.arr[r_][c_]), conv(bcell(r_, c_ - A.cols))), patterns=[G[r_][c_]]))
+    return VMat(ek, A.rows, A.cols + bcols, G, dtype=A.dtype if ek == A.ek else 'float64')
+
+
+_isinst_prev = _FUNCS['isinstance']
+
+
+def _isinstance(I, st, args, kwargs):
+    v, t = args
+    names = [x.name for x in (t.items if isinstance(t, VTuple) else [t]) if isinstance(x, VFunc)]
+    if any(n in ('list', 'numpy.ndarray') for n in names) and all(n in ('list', 'numpy.ndarray') for n in names):
+        return VBool(isinstance(v, (VSeq, VMat)))
+    return _isinst_prev(I, st, args, kwargs)
+
+
+_FUNCS['isinstance'] = _isinstance
+_FUNCS['numpy.ndarray'] = lambda I, st, a, k: (_ for _ in ()).throw(EngineError('np.ndarray()'))
+
+
+@objmethod('PyList', 'append')
+def pylist_append(I, st, lst, x):
+    lst.fields['items'].append(x)
+    return VNone()
+
+
+_sum_prev = _FUNCS['numpy.sum']
+
+
+def _np_sum(I, st, args, kwargs):
+    a = args[0]
+    ax = kwargs.get('axis')
+    if isinstance(a, VMat) and ax is not None and z3.simplify(_int(ax)).as_long() == 1:
+        # row sums of a matrix
+        from . import speclib as sp
+        r_ = z3.Int(fresh_name('r'))
+        if a.ek == 'int':
+            return VSeq('int', a.rows, z3.Lambda([r_], sp.SUMI(a.arr[r_], a.cols)), flavor='array', dtype='int64')
+        return VSeq('real', a.rows, z3.Lambda([r_], sp.SUMR(a.arr[r_], a.cols)), flavor='array', dtype='float64')
+    return _sum_prev(I, st, args, kwargs)
+
+
+_FUNCS['numpy.sum'] = _np_sum
+SIN = z3.Function('np_sin', z3.RealSort(), z3.RealSort())
+
+
+@stub('numpy.sin')
+def s_np_sin(I, st, args, kwargs):
+    a = args[0]
+    if isinstance(a, VSeq):
+        i = z3.Int(fresh_name('i'))
+        conv = (lambda t: z3.ToReal(t)) if a.ek == 'int' else (lambda t: t)
+        return VSeq('real', a.length, z3.Lambda([i], SIN(conv(a.arr[i]))), flavor='array', dtype='float64')
+    return VReal(SIN(_real(a)))
